@@ -1,7 +1,7 @@
 (* Model-side driver for the I/O domain.  Queries on stdin (strings %-encoded as in h_io.c):
      M <p/q>
-     Q <id> num <enc>        -> A <id> <n_char> <value | - | FAULT:<kind>>
-     Q <id> getval <enc>     -> same for ILLget_value
+     Q <id> num <0|1> <enc>     -> A <id> <n_char> <value | - | FAULT:<kind>>    (0: code as found, 1: with numreader_div_zero.diff)
+     Q <id> getval <0|1> <enc>  -> same for ILLget_value
      Q <id> print <p/q>      -> A <id> <enc>
 *)
 open Model
@@ -88,9 +88,9 @@ let () =
     | Some ("Q" :: id :: kind :: args) ->
       (try
         (match kind, args with
-         | "num", [ s ] -> Printf.printf "A %s %s\n" id (show_nres (read_num (chars_of_string (dec s))))
-         | "getval", [ s ] ->
-           let (r, n) = get_value (chars_of_string (dec s)) in
+         | "num", [ v; s ] -> Printf.printf "A %s %s\n" id (show_nres (read_num_gen (v = "1") (chars_of_string (dec s))))
+         | "getval", [ v; s ] ->
+           let (r, n) = get_value (v = "1") (chars_of_string (dec s)) in
            (match r with
             | Val q -> Printf.printf "A %s %d %s\n" id (int_of_nat n) (show_q q)
             | _ -> Printf.printf "A %s %s\n" id (show_nres (r, n)))
